@@ -34,6 +34,9 @@ DEFS = {
     "rec-labels": "(defun hz-f (n) (labels ((a (k) (list (b k))) (b (k) (list (a k)))) (a n)))",
     "rec-self-apply": "(defun hz-f (n) ((lambda (s) (list (funcall s s))) (lambda (s) (list (funcall s s)))))",
     "rec-args": "(defun hz-f (n) (hz-f (hz-f (hz-f n))))",
+    # the recursive call sits under 80 levels of argument nesting: frames x nesting is what the Go stack pays for
+    "rec-nested-args": "(defun hz-f (n) " + "(+ 1 " * 80 + "(hz-f n)" + ")" * 80 + ")",
+    "rec-nested-let": "(defun hz-f (n) " + "(let ((v " * 40 + "(hz-f n)" + ")) v)" * 40 + ")",
     "rec-thread": "(defun hz-f (n) (thread-first n (hz-f) (list)))",
     "loop-dotimes": "(defun hz-f (n) (dotimes (i 1000000000000) i))",
     "loop-tail-growing": "(defun hz-g (acc) (hz-g (cons 1 acc))) (defun hz-f (n) (hz-g ()))",
@@ -177,7 +180,9 @@ def _run(V, work, tier):
     trace = []
     jobs = []
     for i, r in enumerate(recipes):
-        jobs.append((r, {"id": i, "src": render(r), "maxsteps": 1000000, "deadline_ms": DEADLINE, "wedge_ms": 60000}))
+        # (the nested-argument recursions are bounded by the frame and nesting limits, not by steps: they get room to reach them)
+        steps = 30000000 if r["what"] in ("rec-nested-args", "rec-nested-let") else 1000000
+        jobs.append((r, {"id": i, "src": render(r), "maxsteps": steps, "deadline_ms": DEADLINE, "wedge_ms": 60000}))
     with concurrent.futures.ThreadPoolExecutor(max_workers=14) as ex:
         results = list(ex.map(lambda j: hostile_one(binary, j[1]), jobs))
     counts = {}
